@@ -37,6 +37,10 @@ CLAIMS = {
         "text": "Exact characterisations, at every reachable state of the three models, of when each try_* succeeds (try_lock: no guard and nobody starved; try_read: no write guard / waiting writer / pending upgrade; try_upgradable_read: slot free and nobody starved; try_write: that and no reader; try_upgrade: no other reader; try_acquire: a permit is available), that none of them registers a listener, and that all succeed when nothing is alive - Lean theorems (corollaries of the word invariants). " + _TIE + " try_* ops are part of the exhaustive alphabet, so they probe the implementation after every prefix.",
         "note": "PARTIAL: atomic calls; 'never succeeds in conflict' under interleavings not yet covered by a theorem.",
     },
+    "C15": {
+        "text": "In the models the strong count is a counter updated exactly where the code clones, moves or drops the Arc; Lean theorems state that after every history (Mutex, Semaphore, RwLock; conversions, forget, cancellation at any point, handles cloned and dropped down to zero) it equals user handles + owned guards alive + owning futures (lock_arc until completion, UpgradeArc until completion or drop, acquire_arc until drop), hence never over-releases, and is zero exactly when none is left. " + _TIE + " Compared fields: outcome, Arc::strong_count, and the payload's drop counter (dropped exactly once).",
+        "note": "Arc is modelled, not verified. A memory error that leaves the count unchanged (e.g. unlocking through a dangling reference after the Arc was freed) is outside this check.",
+    },
     "C03": {
         "text": "Conservation, no over-issue, exactness of try_acquire and the per-operation permit deltas are Lean theorems over every initial count and every finite operation sequence of the poll-granular Semaphore model (induction on the history). " + _TIE + " Compared fields: outcome and permit counter.",
         "note": "PARTIAL: poll-granular (atomic calls); usize wrap-around outside the model (Nat); interleavings not yet covered by a theorem.",
